@@ -17,7 +17,12 @@ configurations with real numbers, on hand-written configurations for the feature
 zippychord, mouse wheel / movement, chords v2, dynamic macros) and on configurations drawn from the whole action
 grammar by tools/cfggen.py.
 
-Part 3 (the real threaded loop; exploration): spec/Loop.tla (TLC) + `kverif loop-run` when built."""
+Part 3 (exploration): spec/Loop.tla - the processing thread (decide / blocking recv with last_tick = now - 1 ms / try_recv /
+sleep / handle_time_ticks with the remainder carry) around an abstract kanata; TLC checks BlockedOnlyWhenIdle, RecvThenTick,
+NoEventLost, OnIdleNotPostponed, rejects two seeded design errors and reports the TickBudget probe.  `kverif loop-run` starts
+the REAL Kanata::start_processing_loop in-process (simulated output) and sends events with randomized real-time gaps; on
+time-insensitive configurations the OS event sequence must equal the stepper's (P_C07!LoopErr; a disagreement counts only if it
+repeats)."""
 import threading
 from props.common import *
 import cfggen
@@ -769,7 +774,7 @@ def run(tier, seed):
             raise loopres["err"]
         res.extra["loop_model"] = loopres["out"]
         res.states += res.extra["loop_model"]["design"]["states"] or 0
-        ljobs = loop_runs(rng, 3 if quick else 40)
+        ljobs = loop_runs(rng, 3 if quick else 20)
         jf, of = os.path.join(wd, "loop.job.json"), os.path.join(wd, "loop.pairs.ndjson")
         json.dump({"jobs": ljobs}, open(jf, "w"))
         p = sh([HARNESS, "loop-run", jf, of], check=False, timeout=1800)
@@ -784,6 +789,18 @@ def run(tier, seed):
         for e in errs:
             j = ljobs[int(e["job"][4:])]
             run_ = j["runs"][e["case"]]
+            # a real-time run: a disagreement counts only if it shows again on the same events and gaps (twice)
+            again = 0
+            for rep in range(2):
+                jf2, of2 = os.path.join(wd, "loop.re.job.json"), os.path.join(wd, "loop.re.pairs.ndjson")
+                json.dump({"jobs": [{"cfg": j["cfg"], "tag": "loop0", "runs": [run_]}]}, open(jf2, "w"))
+                sh([HARNESS, "loop-run", jf2, of2], timeout=600)
+                _, e2, _, _ = validate_pairs([of2], wd, "loopre")
+                again += 1 if e2 else 0
+            res.extra["real_thread_runs"].setdefault("rerun", []).append({"first": e["err"][:200], "rejected_again": again})
+            if again < 2:
+                res.notes.append("a real-thread run disagreed once and agreed when repeated (real time; not counted): " + e["err"][:200])
+                continue
             flow.classify(res, PID, e["err"], e["err"] + " cfg=" + j["cfg"],
                           {"kind": "c07pair", "property": PID, "mode": "loop", "cfg": j["cfg"], "events": run_["events"],
                            "gaps_us": run_["gaps_us"], "err": e["err"], "monitor": "P_C07"}, "loop_%d" % len(res.violations))
@@ -793,12 +810,17 @@ def run(tier, seed):
         raise ToolError("no may-block point was reached: the paired runs compared nothing")
     return flow.finish(
         res, "model_checking",
-        "TLC checks on every L1 instance (one per time-driven field of is_idle/can_block that the model covers) that a tick taken "
-        "where CanBlock holds is a stutter and emits nothing, composed with P_C07; every model transition incl. the idle/can_block "
-        "flags is replayed on the real code; from TLC-generated prefixes, random histories and generated configurations, at every "
-        "point where the REAL can_block decision was true, lane A = K ticks + continuation and lane B = continuation are recorded "
-        "from fresh instances for K in {1,2,7,Tmax+1,1000,12000} and judged by TLC (P_C07!PairErr): silent gap, decision kept, "
-        "equal OS events at equal offsets; whole histories are also run by the blocking stepper against the ticking stepper.",
+        "TLC checks on every L1 instance (one per time-driven field of is_idle/can_block that the model covers) the invariant "
+        "IdleTickIsStutter (Kanata.tla): a tick taken where CanBlock holds emits nothing and is a stutter on everything that can "
+        "influence the future; every model transition incl. the idle/can_block flags is replayed on the real code (drift 0). From "
+        "TLC-generated prefixes (edges, non-stutter witnesses, drifting edges), random histories on the instance, hand-written "
+        "(defseq, caps-word, zippychord, mouse, chords v2, dynamic macros) and generated configurations, at every point where the "
+        "REAL can_block decision was true, lane A = K ticks + continuation and lane B = continuation are recorded from fresh "
+        "instances for K in {1,2,7,Tmax+1,1000,12000} and judged by TLC (P_C07!PairErr): silent gap, decision kept, equal OS events "
+        "at equal offsets; whole histories are also run by the blocking stepper against the ticking stepper. A rejected pair is "
+        "attributed to a recorded finding only if the decision point shows its precondition and the counterfactual pair agrees. "
+        "Part 3: TLC on spec/Loop.tla (4 invariants, 2 seeded design errors rejected) and the real processing thread against the "
+        "stepper on time-insensitive configurations (exploration).",
         assumptions=["deterministic stepper: one tick = tick_ms(1); can_block_update_idle_waiting(1)",
                      "a blocked wake-up is `input; tick` (last_tick = now - 1 ms)",
                      "the real threaded loop (part 3) is not part of this verdict",
